@@ -987,6 +987,42 @@ def cli_unreadable_outer(ctx):
                 else:
                     done += 1
     ctx.count('cli:unreadable-outer-manifest', n, n, dist={'runs_not_succeeding': done})
+    # ... or the outer directory itself cannot be inspected while the discovery climbs (stat fails: EACCES, EIO, ESTALE): an error, not
+    # "nothing above"
+    n3 = ok3 = 0
+    with ET.Scratch() as sc:
+        for _ in range(60 if ctx.tier == 'quick' else 600):
+            c = GT.Case()
+            t, files, written = GT.build_consistent(r, c, nfiles=r.randint(2, 6), allow_multi=False)
+            subs = sorted({os.path.dirname(m) for m in written if os.path.dirname(m) and not any(x.startswith('.') for x in m.split('/'))})
+            if not subs:
+                continue
+            d = r.choice(subs)
+            ups = [''] + [a for a in subs if d.startswith(a + '/')]
+            victim = r.choice(ups)
+            en = r.choice(['EACCES', 'EIO', 'ESTALE', 'ENOMEM'])
+            nth = r.choice([None, None, 2, 3])
+            b, s2 = sc.fresh()
+            try:
+                t.realise(b, s2)
+                if not os.path.isdir(os.path.join(b, d)):
+                    continue
+                st = os.stat(os.path.join(b, victim) if victim else b)
+                fault = ('stat', (st.st_dev, st.st_ino), en if nth is None else (en, nth))
+                with ET.FaultInjector([fault]), ET.ScandirOrder(GT.order_key_for(0)):
+                    cmd = r.choice(['verify', 'verify', 'update'])
+                    rc, items = run_cli_collect(['gemato', cmd] + (['--no-openpgp-verify'] if cmd == 'verify' else ['-H', 'SHA1']) + [os.path.join(b, d)])
+                    fired = ET.FaultInjector.fired
+            finally:
+                sc.cleanup(b, s2)
+            n3 += 1
+            if fired and rc == 0:
+                ctx.violation('spec', f'gemato {cmd} {d} exited 0 although stat() of the directory {victim or "<top>"} above it failed with {en}'
+                              + (f' (call {nth})' if nth else '') + ': a directory that cannot be inspected was taken to hold no Manifest',
+                              {'tree': describe(t), 'path': d, 'unreadable_directory': victim, 'errno': en, 'nth_call': nth, 'exit': rc, 'log': items[:6]})
+            elif fired:
+                ok3 += 1
+    ctx.count('cli:unreadable-outer-directory', n3, n3, dist={'runs_with_the_fault_hit_and_not_succeeding': ok3})
     # a compressed sub-Manifest whose stream is damaged (the parent's entry matches the damaged file): reading it fails
     # with an error that carries no errno; neither verify nor update may end with exit status 0
     import gzip as _gzip
